@@ -8,7 +8,7 @@
     profile_C / profile_Py / prof k is re-checked against the strings the library has NOW. *)
 From Coq Require Import String Ascii List Bool Arith.
 From LC Require Import Common AstDefs GenDefs EmitDefs EmitProofs.
-From LCGen Require Import AstTypes ProfileStrings.
+From LCGen Require Import AstTypes ProfileStrings ProfileMembers.
 Import ListNotations.
 Local Open Scope string_scope.
 
@@ -318,6 +318,88 @@ Theorem C17_nla_systems_complete : forall m e, sibs_consistent (am_equations m) 
   is_nla (ae_type e) = true -> exists n, In (ae_nla_index e, n) (nla_systems m).
 Proof. exact EmitProofs.nla_systems_complete. Qed.
 Print Assumptions C17_nla_systems_complete.
+
+(** degenerate case: a model of type ODE / DAE WITHOUT states (every state handed to addExternalVariable).  All theorems of
+    this file quantify over such models too (nothing assumes am_states <> []); the generator selects by the model's TYPE
+    (modelHasOdes()), never by stateCount() — generator.cpp: addStateAndVariableCountCode, addInterfaceCreateDeleteArrayMethodsCode,
+    addImplementationCreateStatesArrayMethodCode, addInterfaceComputeModelMethodsCode, addImplementationComputeRatesMethodCode,
+    addImplementationVoiInfoCode, addImplementationStateInfoCode — and so does EmitDefs ([has_odes]).  Explicitly: *)
+Theorem C17_declared_are_defined : forall m s, In s (declared_sigs profile_C m) -> In s (defined_sigs profile_C m).
+Proof. exact EmitProofs.declared_are_defined. Qed.
+Print Assumptions C17_declared_are_defined.
+
+Theorem C17_ode_frames_by_type : forall m, has_odes m = true ->
+  In "double * createStatesArray()" (declared_sigs profile_C m)
+  /\ In "double * createStatesArray()" (defined_sigs profile_C m)
+  /\ (exists s, In s (declared_sigs profile_C m) /\ In s (defined_sigs profile_C m) /\ sig_name s = "computeRates")
+  /\ In "def create_states_array():" (defined_sigs profile_Py m)
+  /\ In (if am_has_ext m then "def compute_rates(voi, states, rates, variables, external_variable):"
+         else "def compute_rates(voi, states, rates, variables):") (defined_sigs profile_Py m).
+Proof. exact EmitProofs.ode_frames_by_type. Qed.
+Print Assumptions C17_ode_frames_by_type.
+
+(** generateMethodBodyCode: an empty body stays empty in C and becomes "    pass" in Python — a Python frame (e.g.
+    compute_rates of a model whose states are all external) is never left without a body *)
+Theorem C17_method_body_python_nonempty : forall body, method_body_code profile_Py body <> "".
+Proof. exact EmitProofs.method_body_python_nonempty. Qed.
+Print Assumptions C17_method_body_python_nonempty.
+
+Theorem C17_method_body_empty : method_body_code profile_C "" = "" /\ method_body_code profile_Py "" = "    pass" ++ nl.
+Proof. exact EmitProofs.method_body_empty. Qed.
+Print Assumptions C17_method_body_empty.
+
+Example C17_zero_states_example :
+  is_valid ex_zero_states = true /\ has_odes ex_zero_states = true /\ am_states ex_zero_states = []
+  /\ state_and_variable_count_code profile_C ex_zero_states false
+     = "const size_t STATE_COUNT = 0;" ++ nl ++ "const size_t VARIABLE_COUNT = 2;" ++ nl
+  /\ length (declared_sigs profile_C ex_zero_states) = 7
+  /\ map sig_name (defined_sigs profile_Py ex_zero_states)
+     = ["create_states_array"; "create_variables_array"; "initialise_variables"; "compute_computed_constants"; "compute_rates"; "compute_variables"]
+  /\ add_implementation_state_info profile_C ex_zero_states "" = "const VariableInfo STATE_INFO[] = {" ++ nl ++ nl ++ "};" ++ nl.
+Proof. exact EmitProofs.zero_states_example. Qed.
+Print Assumptions C17_zero_states_example.
+
+(** ** 6b. the profile object and its history (member lists regenerated from generatorprofile.cpp on every run)
+    setProfile(p) = loadProfile(p): whatever setters were called before, every member that loadProfile assigns has the
+    built-in value afterwards ... *)
+Theorem C17_set_profile_resets_assigned_members :
+  forall (value : Type) (builtin : pkind -> string -> value) k h h' st st' n, In n assigned_members ->
+  set_profile value builtin k (apply_history value h st) n = set_profile value builtin k (apply_history value h' st') n.
+Proof. exact EmitProofs.set_profile_resets_assigned. Qed.
+Print Assumptions C17_set_profile_resets_assigned_members.
+
+Theorem C17_set_profile_is_builtin :
+  forall (value : Type) (builtin : pkind -> string -> value) k st n, In n assigned_members ->
+  set_profile value builtin k st n = builtin k n.
+Proof. exact EmitProofs.set_profile_is_builtin. Qed.
+Print Assumptions C17_set_profile_is_builtin.
+
+(** ... every data member of GeneratorProfileImpl is assigned by loadProfile or is one of at most two known exceptions
+    (mPiecewiseIfString, mPiecewiseElseString on the unrepaired tree; none after fixes/C17-setprofile-piecewise-strings.diff) *)
+Theorem C17_struct_members_covered : forall n, In n struct_members -> In n assigned_members \/ In n unassigned_members.
+Proof. exact EmitProofs.struct_members_covered. Qed.
+Print Assumptions C17_struct_members_covered.
+
+Theorem C17_unassigned_members_known : incl unassigned_members known_unassigned_members.
+Proof. exact EmitProofs.unassigned_members_known. Qed.
+Print Assumptions C17_unassigned_members_known.
+
+(** "setProfile(p) makes every member equal to the built-in profile p regardless of history": true exactly when
+    loadProfile leaves no member out ... *)
+Theorem C17_set_profile_resets_all_members_partial :
+  forall (value : Type) (builtin : pkind -> string -> value), unassigned_members = [] ->
+  forall k h h' st st' n, In n struct_members ->
+  set_profile value builtin k (apply_history value h st) n = set_profile value builtin k (apply_history value h' st') n.
+Proof. exact EmitProofs.set_profile_resets_all_members_partial. Qed.
+Print Assumptions C17_set_profile_resets_all_members_partial.
+
+(** ... and refuted for each member it leaves out (known finding C17-setprofile-keeps-piecewise-strings) *)
+Theorem C17_set_profile_refuted_when_unassigned :
+  forall (value : Type) (builtin : pkind -> string -> value) n, In n unassigned_members -> forall (v w : value), v <> w ->
+  forall k st, In n struct_members /\
+    set_profile value builtin k (apply_history value [(n, v)] st) n <> set_profile value builtin k (apply_history value [(n, w)] st) n.
+Proof. exact EmitProofs.set_profile_refuted_when_unassigned. Qed.
+Print Assumptions C17_set_profile_refuted_when_unassigned.
 
 (** ** 7. validity guards *)
 
